@@ -15,11 +15,13 @@ E-PURE (state machines of `auth.rs`), states and messages `:`-separated:
   `authz adv=<pids> pid=<p> rem=<live remotable pids>` → `<0|1> adv=<pids afterwards>`   (`authorized_local_actor`)
 
 E-LTS (a real `NodeServer`, the harness is the peer):
-  `node <name>`                                            → `ok`        (fresh NodeServer; forgets all sessions)
+  `node <name> transitive=<0|1>`                           → `ok`        (fresh NodeServer; forgets all sessions)
   `open <k> <server|client> thisname= thisconn= connid= transitive=` → `sent=[…]`
   `send <k> <frame> check= elected= fresh= pids= groups= rem= sessions= h=` → observation
   `local <k> <spawn|term> <pid> <rem 0|1> groups=<scope/group/pid;…>` → observation
   `garbage <k> <hex>` / `drop <k>`                         → observation (transport closed)
+  `survived`                                               → `1` (a fresh session authenticated after a wire fault on another one)
+  `connects`                                               → number of TCP connections the node opened to the advertised address
   `killed <k>`                                             → observation (the NodeServer stopped the session: it lost an election)
 observation: `sent=[f|…] probe=[pid:cast|pid:call|…] proxies=[…] pg=[scope/group:pids;…] listed=0|1 alive=0|1`
 -/
@@ -199,10 +201,13 @@ structure Ses where
 
 structure St where
   sessions : List (Nat × Ses) := []
+  /-- transitive `connect` effects of the current node (all sessions) -/
+  connects : Nat := 0
+  anyGood : Bool := false
 
 def St.get? (s : St) (k : Nat) : Option Ses := (s.sessions.find? (·.1 == k)).map (·.2)
 def St.set (s : St) (k : Nat) (v : Ses) : St :=
-  { sessions := (s.sessions.filter (·.1 != k)) ++ [(k, v)] }
+  { s with sessions := (s.sessions.filter (·.1 != k)) ++ [(k, v)], anyGood := s.anyGood || v.oGood }
 
 def sortNats (l : List Nat) : List Nat := (l.toArray.qsort (· < ·)).toList
 
@@ -381,7 +386,16 @@ def step (st : St) (op impl : String) : St × StepOut :=
     -- oracle on the implementation's answer: allowed only if advertised and a live remotable actor
     let orc := if impl.startsWith "1" && !(adv.contains pid && rem.contains pid) then ["delivery-to-unadvertised-pid"] else []
     (st, { model := s!"{if ok then 1 else 0} adv={showNats (sortNats s1.advertised)}", oracle := orc, nontrivial := true })
-  | ["node", _] => ({ sessions := [] }, { model := "ok" })
+  | "node" :: _ => ({ sessions := [] }, { model := "ok" })
+  | ["survived"] =>
+    -- after a framing fault on one session a fresh session must still authenticate (C19)
+    (st, { model := "1", oracle := if impl == "1" then [] else ["node-wedged-after-wire-fault"], nontrivial := true })
+  | ["connects"] =>
+    -- oracle: the node dials a peer-supplied address only if some session presented the right digest
+    let orc := match impl.toNat? with
+      | some n => if n > 0 && !st.anyGood then ["effect-before-authentication"] else []
+      | none => []
+    (st, { model := toString st.connects, oracle := orc, nontrivial := st.connects > 0 })
   | "open" :: k :: side :: _ =>
     match k.toNat? with
     | some k =>
@@ -405,7 +419,9 @@ def step (st : St) (op impl : String) : St × StepOut :=
       let rem := ((getField ws "rem").bind natList?).getD []
       let (sesO, orc) := oracleOn ses' (some fr) tbl rem impl
       let nt := eff.any (·.gated) || s'.stopped
-      (st.set (k.toNat?.getD 0) sesO, { model := showObs ses' eff, oracle := orc, nontrivial := nt })
+      let nc := (eff.filter (fun e => match e with | .connect _ => true | _ => false)).length
+      ({ st.set (k.toNat?.getD 0) sesO with connects := st.connects + nc },
+       { model := showObs ses' eff, oracle := orc, nontrivial := nt })
     | _, _ => (st, { model := "bad-op" })
   | "local" :: k :: what :: pid :: rem :: _ =>
     match k.toNat?.bind st.get?, pid.toNat? with
@@ -428,7 +444,11 @@ def step (st : St) (op impl : String) : St × StepOut :=
     match k.toNat?.bind st.get? with
     | some ses =>
       let ses' := closeTransport ses
-      let (sesO, orc) := oracleOn ses' none tbl [] impl
+      let (sesO, orc0) := oracleOn ses' none tbl [] impl
+      -- a framing fault / EOF closes this session (C19: "closes that session only")
+      let orc := orc0 ++ (match parseObs? impl with
+        | some o => if o.alive && !(ws.head? == some "killed") then ["wire-fault-did-not-close-session"] else []
+        | none => [])
       (st.set (k.toNat?.getD 0) sesO, { model := showObs ses' [], oracle := orc, nontrivial := true })
     | none => (st, { model := "bad-op" })
   | _ => (st, { model := "bad-op" })
